@@ -619,7 +619,7 @@ pub fn dump<const K: usize>(t: &AffTree<K>) -> Vec<NodeDump> {
 }
 
 pub fn eval_lib<const K: usize>(t: &AffTree<K>, x: &[Q]) -> Option<Vec<f64>> {
-    let xv = ndarray::Array1::from_iter(x.iter().map(|q| q.to_f64()));
+    let xv = crate::gen::arr(&x.iter().map(|q| q.to_f64()).collect::<Vec<f64>>());
     t.evaluate(&xv).map(|a| a.to_vec())
 }
 
@@ -804,7 +804,7 @@ pub fn compare_tree_opts<const K: usize>(
             continue;
         }
         let exp = reference.eval(p);
-        let xv = ndarray::Array1::from_iter(p.iter().map(|q| q.to_f64()));
+        let xv = crate::gen::arr(&p.iter().map(|q| q.to_f64()).collect::<Vec<f64>>());
         let got = crate::runner::guard(|| t.evaluate(&xv)).map_err(|pm| (format!("{what}: evaluate panicked: {pm}"), serde_json::json!({"input": xv.to_vec()})))?;
         out.inputs += 1;
         let bc = reference.boundary_count(p);
